@@ -134,6 +134,15 @@ Theorem C11_before_applied :
 Proof. exact @before_applied. Qed.
 Print Assumptions C11_before_applied.
 
+(* enable / disable twice = once: same rules, same (dropped) cache, same value
+   returned or exception raised (rule names unique) *)
+Theorem C11_toggle_idempotent :
+  forall (F : Type) v names ign (r : ruler F),
+    NoDup (all_names r) ->
+    toggle v names ign (fst (toggle v names ign r)) = toggle v names ign r.
+Proof. exact @toggle_idempotent. Qed.
+Print Assumptions C11_toggle_idempotent.
+
 (* the code before the repair (cache invalidated only on success) is refuted *)
 Theorem C11_legacy_refuted :
   let r := legacy_run stale_history in
